@@ -137,10 +137,13 @@ class Prop:
         # rule values of every JSON kind for every rule: the wrong kind is the author's mistake, with a code of its own
         for name in ['min', 'max', 'minLength', 'maxLength', 'minItems', 'maxItems', 'precision', 'regex', 'type', 'enum', 'const', 'nullable', 'optional',
                      'additionalProperties', 'or', 'allOf', 'exclusiveMinimum', 'exclusiveMaximum']:
-            for val in ['5', '"x"', 'true', 'null', '1.5', '[1]', '{}', '-1', '"@t"', '[]', '""']:
-                for ex in ['1', '"a"', '[\n  1\n]', '{}', '1.5']:
+            for val in ['5', '"x"', 'true', 'null', '1.5', '[1]', '{}', '-1', '"@t"', '[]', '""', '[""]', '[null]', '{"a": 1}', '"@"', '"#"', '1e999']:
+                for ex in ['1', '"a"', '[\n  1\n]', '{}', '1.5', 'null', '@t']:
                     text = (ex[0] + ' // {%s: %s}' % (name, val) + ex[1:]) if ex[0] in '[' else '%s // {%s: %s}' % (ex, name, val)
                     add('S', text.encode(), 'rule-value-kind')
+                add('S', ('1 // {or: [{type: "integer", %s: %s}, "string"]}' % (name, val)).encode(), 'rule-value-kind')
+                add('S', ('{\n  "k": "a" // {or: [{%s: %s}, {type: "string", %s: %s}]}\n}' % (name, val, name, val)).encode(), 'rule-value-kind')
+                add('ST', ('{\n  "k": "a" // {%s: %s}\n}' % (name, val)).encode(), 'rule-value-kind')
         return cs
 
     def model_lines(self, lines, impl):
